@@ -27,7 +27,8 @@ class C18(CfProp):
         nmax = 4 if tier == "quick" else 5
         while len(cases) < n:
             g = self.rand_case(rng, nmax)
-            cases.append({"g": g, "event": GEV.rand_event(rng, g["nodes"])})
+            ev = GEV.structured_event(rng, g) if rng.random() < 0.2 else None
+            cases.append({"g": g, "event": ev or GEV.rand_event(rng, g["nodes"])})
         return cases
 
     def run(self, case):
